@@ -298,7 +298,7 @@ const PARTIALS: [(&str, &str); 5] = [
     ("boom", "pre{% yield %}{{ undefined_in_partial }}post"),
 ];
 
-const TEMPLATES: [&str; 10] = [
+const TEMPLATES: [&str; 11] = [
     // 0: includes the lazily compiled partial twice
     "A{% yield %}{% include 'p' %}{% yield %}{% increment c %}{% yield %}{% include 'p' %}",
     // 1: broken partial
@@ -322,6 +322,9 @@ const TEMPLATES: [&str; 10] = [
     // 9: the same dynamic include alone, executed twice by each render (state memoised inside a renderable
     //    only matters from its second execution on)
     "{% for k in (1..2) %}{% include which %}{% yield %}{% endfor %}",
+    // 10: break / continue with text *after* the interrupt in the same iteration, and after the loop
+    //     (an interrupt that is noticed late, or by the wrong render, prints the text)
+    "{% for i in (1..3) %}{{ i }}{% if i == 2 %}{% continue %}{% endif %}a{% endfor %}|{% for i in (1..3) %}{% if i == 2 %}{% break %}{% endif %}b{% yield %}{% endfor %}|{% for i in (1..2) %}{% for j in (1..2) %}{% break %}x{% endfor %}y{% endfor %}z",
 ];
 
 struct World {
@@ -458,6 +461,7 @@ fn harnesses() -> Vec<Harness> {
         Harness { name: "H6", what: "one template rendered concurrently with two different data objects (bindings, capture, cycle, counters, loops must not cross over)", plan: vec![vec![Op::Render(7)], vec![Op::RenderB(7)]] },
         Harness { name: "H7", what: "one template whose include name is dynamic, rendered concurrently with data naming different partials (state memoised inside the include renderable would cross over)", plan: vec![vec![Op::Render(9)], vec![Op::RenderB(9)]] },
         Harness { name: "H8", what: "one template with every argument position dynamic (partial name, range bound, limit, cycle group, case target, date format, cols), two data objects", plan: vec![vec![Op::Render(8)], vec![Op::RenderB(8)]] },
+        Harness { name: "H9", what: "two threads render a template whose loops break / continue with text after the interrupt (interrupt state must be per render)", plan: vec![vec![Op::Render(10)], vec![Op::Render(10)]] },
         Harness { name: "H5", what: "a render that fails midway (partial error, missing partial) while another renders", plan: vec![vec![Op::Render(4)], vec![Op::Render(3)], vec![Op::Render(5)]] },
     ]
 }
@@ -745,7 +749,7 @@ fn main() {
     // counterexample found has the fewest preemptions
     let tasks: Vec<(usize, usize, bool)> = if tier.thorough() {
         let mut t = vec![(0, 0, true)];
-        for (hi, maxb) in [(1usize, 5usize), (2, 4), (3, 4), (4, 3), (5, 4), (6, 5), (7, 3), (8, 3)] {
+        for (hi, maxb) in [(1usize, 5usize), (2, 4), (3, 4), (4, 3), (5, 4), (6, 5), (7, 3), (8, 3), (9, 3)] {
             for b in 0..=maxb {
                 t.push((hi, b, false));
             }
@@ -753,7 +757,7 @@ fn main() {
         t
     } else {
         let mut t = vec![];
-        for (hi, maxb) in [(0usize, 3usize), (1usize, 2usize), (2, 2), (3, 2), (4, 1), (5, 2), (6, 2), (7, 1), (8, 1)] {
+        for (hi, maxb) in [(0usize, 3usize), (1usize, 2usize), (2, 2), (3, 2), (4, 1), (5, 2), (6, 2), (7, 1), (8, 2), (9, 1)] {
             for b in 0..=maxb {
                 t.push((hi, b, false));
             }
